@@ -95,7 +95,7 @@ def required(tier):
         "prog_snvdp_bracketed": 1100, "prog_dp_checked": 3700, "prog_pool_configs": 140, "prog_pool_sample_in_two_pools": 70,
         "prog_pool_single_name": 28, "prog_pool_multi_member_loci": 930,
         "cli_runs": 160, "cli_records": 630, "cli_sample_fields_checked": 2200, "cli_snvdp_exact": 1100, "cli_snvdp_bracketed": 620,
-        "inject_vcf_ref_locus_raised": 100, "inject_vcf_ref_cli_raised": 26, "inject_md_ref_fn_raised": 490, "inject_md_ref_cli_raised": 26,
+        "inject_vcf_ref_locus_raised": 100, "inject_vcf_ref_cli_raised": 26, "inject_md_ref_fn_raised": 490, "inject_md_ref_cli_raised": 26, "inject_md_ref_partial_raised": 300,
         "cigar_I": 6100, "cigar_D": 11000, "cigar_S": 11000, "cigar_N": 5900, "cigar_EQ": 6000, "cigar_X": 3500, "cigar_H": 5700,
         "cells_deleted": 860, "cells_skipped": 1100, "cells_clipped": 1100,
         "flag_unmapped_excluded": 7100, "flag_secondary_kept": 7800, "flag_qcfail_excluded": 13000, "flag_qcfail_kept": 6300,
@@ -1152,12 +1152,43 @@ def inject_md_ref(pre, rng, root, col, found, do_cli):
     D.write_bam(badbam, contigs2, ds.bam_rgs[bam], ds.bam_alignments[bam])
     what = "BAM whose MD tags imply reference base %s at %s:%d where the SNV file and FASTA have %s (target %s)" % (nb, v["contig"], v["pos0"] + 1, v["ref"], loc["name"])
     locus = build_locus(ds, loc)
+    # second file: only SOME reads disagree (read groups of one sample aligned to two reference versions and merged): every
+    # read's own MD tag is evidence, so one inconsistent contributing read must be reported however many consistent reads
+    # were seen before it.  All alignments of the chosen read names carry the inconsistent MD tag.
+    covering = sorted({a["qname"]: a["pos0"] for a, cells, _ in pre.cand[(bam, li)] if cells[j] is not None}.items(), key=lambda kv: kv[1])
+    partial = None
+    if len(covering) >= 2:
+        names = [q for q, _ in covering]
+        mode = int(rng.integers(3))
+        chosen = set(names[1:]) if mode == 0 else ({names[-1]} if mode == 1 else set(names[1:][:: 2]) or {names[-1]})
+        alns2 = []
+        for a in ds.bam_alignments[bam]:
+            a2 = dict(a)
+            if a["qname"] in chosen and not (a["flag"] & 4) and a["contig"] == v["contig"]:
+                a2["md"] = D.md_tag(contigs2[a["contig"]], a["pos0"], a["cigar"], a["seq"])
+            alns2.append(a2)
+        partial = (os.path.join(root, "bad_md_partial.bam"), chosen)
+        D.write_bam(partial[0], ds.contigs, ds.bam_rgs[bam], alns2)
+        col.count("inject_md_ref_partial_files")
     for field in ("SM", "ID"):
         for key in pre.keys(bam, field):
             for combo in (0, 7):
                 c2 = {"minq": int(rng.choice(THRESHOLDS)), "keep_dup": bool(combo & 1), "keep_qcf": bool(combo & 2), "keep_sup": bool(combo & 4)}
                 rows = pre.rows(bam, li, field, key, c2)
                 must = any(r[j] for r in rows.values())
+                if partial is not None:
+                    must2 = any(r[j] for q, r in rows.items() if q in partial[1])
+                    try:
+                        with pysam.AlignmentFile(partial[0]) as af:
+                            extract_read_variants(locus, af, samples=key, id=field, min_quality=c2["minq"], skip_duplicates=not c2["keep_dup"], skip_qcfail=not c2["keep_qcf"], skip_supplementary=not c2["keep_sup"])
+                    except Exception:  # noqa: BLE001
+                        col.count("inject_md_ref_partial_raised" if must2 else "inject_md_ref_partial_raised_without_used_read")
+                    else:
+                        if must2:
+                            found.append(("inconsistent-reference-not-reported", "%s - ONLY in the reads %s, the other reads agree: extract_read_variants(samples=%r, id=%s, min_quality=%d, keep flags %d) returned although %d of those reads contribute a base there"
+                                          % (what, sorted(partial[1])[:4], key, field, c2["minq"], combo, sum(1 for q, r in rows.items() if q in partial[1] and r[j]))))
+                        else:
+                            col.count("inject_md_ref_partial_no_used_read_silent")
                 try:
                     with pysam.AlignmentFile(badbam) as af:
                         extract_read_variants(locus, af, samples=key, id=field, min_quality=c2["minq"], skip_duplicates=not c2["keep_dup"], skip_qcfail=not c2["keep_qcf"], skip_supplementary=not c2["keep_sup"])
